@@ -104,12 +104,23 @@ func run(pass *analysis.Pass) (any, error) {
 			// arbitrarily complex selector, such as foo.bar[0].Printf. In either case,
 			// all we have to do is remove the final 'f' from the existing call.Fun
 			// expression.
-			alt = report.Render(pass, call.Fun)
+			alt = report.Render(pass, ast.Unparen(call.Fun))
 			alt = alt[:len(alt)-1]
+		}
+		fix := edit.ReplaceWithString(call.Fun, alt)
+		if name != "fmt.Errorf" {
+			// rename the final identifier only: the callee may be parenthesized,
+			// and its rendering may differ from the source text
+			switch fun := ast.Unparen(call.Fun).(type) {
+			case *ast.Ident:
+				fix = edit.ReplaceWithString(fun, fun.Name[:len(fun.Name)-1])
+			case *ast.SelectorExpr:
+				fix = edit.ReplaceWithString(fun.Sel, fun.Sel.Name[:len(fun.Sel.Name)-1])
+			}
 		}
 		report.Report(pass, call,
 			"printf-style function with dynamic format string and no further arguments should use print-style function instead",
-			report.Fixes(edit.Fix(fmt.Sprintf("Use %s instead of %s", alt, name), edit.ReplaceWithString(call.Fun, alt))))
+			report.Fixes(edit.Fix(fmt.Sprintf("Use %s instead of %s", alt, name), fix)))
 	}
 	return nil, nil
 }
